@@ -85,6 +85,18 @@ def main():
         if os.path.exists(os.path.join(src, f)) and os.path.abspath(src) != os.path.abspath(dst):
             shutil.copy(os.path.join(src, f), os.path.join(dst, f))
     meta["needs_to_manifest"] = "see notes.md"
+    oldp = os.path.join(dst, "meta.json")
+    if os.path.exists(oldp):
+        try:
+            old = json.load(open(oldp))
+            hist = old.get("first_evaluation_before_the_check_was_strengthened")
+            oc = old.get("checks", {}).get(pid, {})
+            if hist is None and oc.get("exit") != 1 and meta["checks"].get(pid, {}).get("exit") == 1:
+                hist = {"exit": oc.get("exit"), "verdict": "missed" if oc.get("exit") == 0 else f"check crashed (exit {oc.get('exit')})"}
+            if hist is not None:
+                meta["first_evaluation_before_the_check_was_strengthened"] = hist
+        except Exception:
+            pass
     meta["ran"] = ["baseline pytest with the change", "demo with and without the change", f"bin/check {' '.join(ids)} --tier {tier} with IXAI_REPO=<scratch copy>"]
     with open(os.path.join(dst, "meta.json"), "w") as fh:
         json.dump(meta, fh, indent=1)
